@@ -554,3 +554,119 @@ func init() {
 		"non-trivial = the event has a non-empty content object and at least one prev or auth event, or is a v12 create event; distinct = distinct Case JSON",
 		1500, 160000, 16, c03Gen, c03Check)
 }
+
+// ---------------------------------------------------------------------------------------------
+// C03/near-size-limit: proto-events whose built, signed JSON lands around the 65536-byte limit.
+// A built event passes its own field checks and re-parses as untrusted input; an event that cannot
+// (it is too large once signed) must be refused by Build, and one within the limit must be built.
+
+type c03SizeCase struct {
+	Version string `json:"version"`
+	Target  int    `json:"target"` // wanted length of the final event JSON
+	Multi   bool   `json:"multi"`  // pad with multi-byte characters
+}
+
+func c03EnumSize(size, shard, nshards int, emit func(c03SizeCase)) {
+	idx := 0
+	for _, v := range vfVersions {
+		for d := -3; d <= 260; d++ {
+			if size <= 1 && d > 3 && d%8 != 0 {
+				continue // quick tier: every byte around the limit, then every 8th up to a signature block beyond it
+			}
+			for _, multi := range []bool{false, true} {
+				if idx%nshards == shard {
+					emit(c03SizeCase{Version: v, Target: 65536 + d, Multi: multi})
+				}
+				idx++
+			}
+		}
+	}
+}
+
+func c03CheckSize(ctx *vfCtx, c c03SizeCase) {
+	impl, err := GetRoomVersion(RoomVersion(c.Version))
+	if err != nil {
+		ctx.Fail("C03/unknown-version", "version %q not registered", c.Version)
+		return
+	}
+	sk := (*string)(nil)
+	p := evProto{Version: c.Version, Type: "m.room.message", Sender: "@alice:a.example", RoomID: "!room:a.example", StateKey: sk,
+		Prev: []string{}, Auth: []string{}, Depth: 5, TS: 1700000000000, Origin: "a.example", KeyID: "ed25519:1", Key: "origin:a.example"}
+	if vtraits[c.Version].Creators {
+		p.RoomID = "!" + strings.Repeat("A", 43)
+	}
+	if vtraits[c.Version].IDFormat == 1 {
+		p.Prev, p.Auth = nil, nil
+	}
+	unit := "p"
+	if c.Multi {
+		unit = "é"
+	}
+	body := func(n int) vfBytes {
+		s := strings.Repeat(unit, n/len(unit)) + strings.Repeat("p", n%len(unit))
+		return vfBytes(`{"body":"` + s + `"}`)
+	}
+	// measure with a small body, then pad to the target
+	p.Content = body(100)
+	var probe PDU
+	if vfCatch(ctx, "C03/near-size-limit", func() { probe, err = evBuild(p) }) {
+		return
+	}
+	if err != nil || probe == nil {
+		ctx.Unjudged("generator: the small event does not build: " + fmt.Sprint(err))
+		return
+	}
+	pad := 100 + c.Target - len(probe.JSON())
+	if pad < 0 {
+		ctx.Unjudged("generator: target below the envelope size")
+		return
+	}
+	p.Content = body(pad)
+	var ev PDU
+	if vfCatch(ctx, "C03/near-size-limit", func() { ev, err = evBuild(p) }) {
+		return
+	}
+	ctx.NonTrivial()
+	within := c.Target <= 65536
+	ctx.Class(fmt.Sprintf("target-within-limit=%v", within))
+	if err != nil {
+		ctx.Class("build-refused")
+		if within {
+			ctx.Fail("C03/near-size-limit/build-refuses-event-within-limit", "Build refused a proto-event whose event would be %d bytes: %v", c.Target, err)
+		}
+		return
+	}
+	ctx.Class("built")
+	n := len(ev.JSON())
+	if n != c.Target {
+		ctx.Class("size-miss")
+		ctx.Unjudged("generator: built event has another size than aimed for")
+		within = n <= 65536
+	}
+	var cerr error
+	if vfCatch(ctx, "C03/near-size-limit", func() { cerr = CheckFields(ev) }) {
+		return
+	}
+	if cerr != nil {
+		ctx.Fail("C03/near-size-limit/built-event-fails-own-checks", "Build returned an event of %d bytes without error, but CheckFields says: %v", n, cerr)
+		return
+	}
+	var re PDU
+	var rerr error
+	if vfCatch(ctx, "C03/near-size-limit", func() { re, rerr = impl.NewEventFromUntrustedJSON(append([]byte(nil), ev.JSON()...)) }) {
+		return
+	}
+	if rerr != nil || re == nil {
+		ctx.Fail("C03/near-size-limit/reparse-error/untrusted", "Build returned an event of %d bytes without error, but it does not re-parse as untrusted input: %v", n, rerr)
+		return
+	}
+	if !within {
+		ctx.Fail("C03/near-size-limit/oversize-event-built", "Build returned an event of %d bytes (limit 65536) and every check accepts it", n)
+	}
+}
+
+func init() {
+	vfEnum("C03/near-size-limit",
+		"non-trivial = every case: a message event padded so that its built and signed JSON is 65533..65796 bytes long (around the limit and up to more than one signature block beyond it), ASCII or two-byte padding, every room version. distinct = distinct Case JSON",
+		1, 2, 8, c03EnumSize, c03CheckSize)
+}
